@@ -23,10 +23,18 @@ META = {
             "(pass_pipeline_simplify_cfg_refuted) and replayed on the real compiler. (2) N-way differential: generated VyCore "
             "programs, a hand-written feature corpus and /repo/examples are compiled under every configuration (both pipelines, "
             "all levels, EVM targets, disable flags, debug) and must agree on status, return/revert data, ordered logs, final "
-            "storage and balances. Partial: optimisation passes are not proved semantics preserving.",
+            "storage and balances. (3) Theorem rds_flow_sound / emitted_skeletons_target_independent (Coq): the returndata-flow "
+            "skeletons regenerated on every run from the IR the legacy generator emits for pre-Cancun targets (corpus, dynamic-member "
+            "family) never read the returndata buffer between a batch copy through the identity precompile and the next real call, "
+            "so they cannot observe whether a copy is lowered to the precompile or to MCOPY; the refuted shape (bound recomputed after "
+            "a copy) is unpack_inlined_refuted. (4) A structured family of contracts moving values with >= 2 dynamic members through "
+            "interface calls / abi_decode / raw returndata runs under every (generator, EVM target) pair, and every corpus contract of "
+            "a quick run does too. Partial: optimisation passes are not proved semantics preserving.",
     "level_note": "Trusted: Coq kernel + vm_compute; extraction of the pass tables by introspection of the imported modules; "
-                  "pyrevm. Behavioural invariance is established per program by the differential only.",
-    "technique": "Coq finite exhaustive proof over regenerated pass tables + N-way differential across compiler configurations",
+                  "pyrevm; the IR -> skeleton abstraction of tools/vlib/c02_rdsflow.py (evaluation order of compile_ir.py, labels "
+                  "entered with an unknown buffer state). Behavioural invariance is established per program by the differential only.",
+    "technique": "Coq finite exhaustive proof over regenerated pass tables + Coq-proved flow analysis over regenerated IR skeletons "
+                 "+ N-way differential across compiler configurations",
 }
 
 
@@ -129,6 +137,28 @@ def split_class(groups):
     if len(pls) == 1 and not any(pl(n) in pls for n in groups[0]):
         return "level:" + sorted(pls)[0]
     return groups[1][0]
+
+
+def split_class2(groups, prefer_era=False):
+    """split_class, refined when it can only name the first deviating configuration: '<generator>:<era>' / 'evm:<era>' when
+    every deviating configuration shares the code generator and/or the EVM era (pre-cancun: london, paris, shanghai) and no
+    configuration of the majority group does (prefer_era: also when only some configurations of that kind deviate, e.g.
+    because a level picks another copy primitive, and instead of a 'level:' class)"""
+    cls = split_class(groups)
+    if cls != groups[1][0] and not (prefer_era and cls.startswith("level:")):
+        return cls
+
+    def kind(n):
+        parts = n.split("-")
+        return parts[0], ("pre-cancun" if parts[2] in R.PRE_CANCUN else "cancun+")
+    minority = {kind(n) for g in groups[1:] for n in g}
+    major = {kind(n) for n in groups[0]}
+    if len(minority) == 1 and (prefer_era or not (minority & major)):
+        g, e = next(iter(minority))
+        return f"{g}:{e}"
+    if len({e for _, e in minority}) == 1 and not ({e for _, e in minority} & {e for _, e in major}):
+        return "evm:" + next(iter(minority))[1]
+    return cls
 
 
 def canon_storage(prog, mfin, sto):
@@ -580,6 +610,29 @@ def __default__():
 ]
 
 
+# feature families of the corpus (quick tier: at least one contract of every family runs, under every (generator, EVM target) pair)
+FAMILY = {
+    "bytestrings": ("bytes_ops", "string_ops", "bytesm_ops"),
+    "mappings-structs": ("hashmaps", "structs", "dynarray_structs"),
+    "arrays-tuples-loops": ("arrays", "tuples", "loops"),
+    "external-calls": ("iface_calls", "raw_calls", "callback_storage", "callback_transient", "nonreentrant"),
+    "create-ether": ("create_ops", "ether"),
+    "abi-events-defaults": ("abi_codec", "default_args", "events"),
+    "arithmetic-conversion": ("math_ops", "converts", "decimals", "flags", "range_narrowing"),
+    "environment-immutables": ("immutables", "crypto", "environment", "transient"),
+    "control-internal": ("asserts", "internal_many"),
+    "selectors": ("fallback_selectors", "fallback_zero_selectors", "zero_selectors_no_default"),
+}
+
+
+def family_of(name):
+    n = name.split("/", 1)[-1]
+    for fam, members in FAMILY.items():
+        if n in members:
+            return fam
+    return "other:" + n
+
+
 def load_corpus(ctx):
     jobs = []
     for name, src in REGRESS:
@@ -618,6 +671,13 @@ def part_corpus(ctx, cfgs):
             if job["name"].startswith(always) or (job["name"].startswith("examples/") and h % 3 == 0) or \
                     (job["name"].startswith("corpus/") and h % 2 == 0):
                 keep.append(job)
+        # every feature family keeps at least one contract (the first of the family by the seeded hash)
+        have = {family_of(j["name"]) for j in keep if j["name"].startswith("corpus/")}
+        for job in sorted((j for j in jobs if j["name"].startswith("corpus/") and j not in keep),
+                          key=lambda j: zlib.crc32((j["name"] + "#" + str(ctx.seed)).encode())):
+            if family_of(job["name"]) not in have:
+                have.add(family_of(job["name"]))
+                keep.append(job)
         ctx.corr["corpus_sampled_out_this_seed"] = [j["name"] for j in jobs if j not in keep]
         jobs = keep
     for job in jobs:
@@ -643,6 +703,13 @@ def part_corpus(ctx, cfgs):
         named = [f for f in USABLE_FLAGS if f in job["name"]]
         if job.get("regress") and len(named) >= 2 and not any(sorted(c.flags) == sorted(named) for c in cfgs):
             cfgs.append(Config(True, "gas", "cancun", flags=named))
+    # (feature, code generator, EVM target) cover: in the quick tier every corpus contract of this run also runs under one
+    # configuration for EVERY (generator, EVM target) pair its rotating configurations do not already hit (level sampled per
+    # contract and seed), so a change that shows only for one generator on some targets is seen by the feature that uses it
+    n_cover0 = len(cfgs)
+    from vlib.configs import EVMS
+    cover_levels = {False: ["none", "gas", "codesize"], True: ["none", "gas", "codesize", "O3"]}
+    cfgs += [Config(v, lvl, evm) for v in (False, True) for evm in EVMS for lvl in cover_levels[v]]
     _JOBS = {"jobs": usable, "cfgs": cfgs}
     # quick tier: the (large) example contracts run under four most-different configurations only, the corpus under seven
     # quick tier: every corpus contract runs under the two default pipelines plus three rotating configurations; the example
@@ -655,9 +722,36 @@ def part_corpus(ctx, cfgs):
         h = zlib.crc32((job["name"] + str(ctx.seed)).encode())
         return set(base_names) | {rot[(h + k * 3) % len(rot)] for k in range(extra)}
 
+    _cover_cache = {}
+
+    def cover_for(job):
+        """names of the extra configurations that complete the (generator, EVM target) pairs for a corpus contract"""
+        if job["name"] in _cover_cache:
+            return _cover_cache[job["name"]]
+        import zlib
+        res = set()
+        if ctx.tier == "quick" and job["name"].startswith("corpus/"):
+            if "selectors" in job["name"]:
+                mine = [c for c in cfgs[:n_base]]
+            else:
+                qs = quick_set(job, 2)
+                mine = [c for c in cfgs[:n_base] if c.name in qs]
+            have = {(c.venom, c.evm) for c in mine}
+            for v in (False, True):
+                for evm in EVMS:
+                    if (v, evm) in have or (job["min_evm"] == "cancun" and evm in R.PRE_CANCUN):
+                        continue
+                    lv = cover_levels[v]
+                    h = zlib.crc32(f"{job['name']}:{v}:{evm}:{ctx.seed}".encode())
+                    res.add(Config(v, lv[h % len(lv)], evm).name)
+        _cover_cache[job["name"]] = res
+        return res
+
     def wanted(job, j, cfg):
         if job["min_evm"] == "cancun" and cfg.evm in R.PRE_CANCUN:
             return False
+        if j >= n_cover0:
+            return cfg.name in cover_for(job)
         if j >= n_base:
             if not job.get("regress"):
                 return False
@@ -676,7 +770,7 @@ def part_corpus(ctx, cfgs):
         return True
     work = [(k, j) for k, job in enumerate(usable) for j, cfg in enumerate(cfgs) if wanted(job, j, cfg)]
     out = {}
-    with mp.get_context("fork").Pool(4) as pool:
+    with mp.get_context("fork").Pool(6 if ctx.tier == "quick" else 4) as pool:     # quick: the (generator, EVM) cover adds ~60% work
         for k, j, st, o in pool.imap_unordered(_corpus_one, work, chunksize=2):
             out[(k, j)] = (st, o)
     n_cmp = 0
@@ -707,17 +801,362 @@ def part_corpus(ctx, cfgs):
                            "calls": [{"function": c["name"], "calldata": c["data"].hex(), "value": c["value"], "sender": c["sender"],
                                       "args": c.get("args")} for c in job["plan"]],
                            "helper_deployed_first": job["helper"] is not None},
-                          key=f"C02:{job['name']}:{split_class(groups)}")
+                          key=f"C02:{job['name']}:{split_class2(groups)}")
     for (exc, fl), lst in crashes.items():
         k, cfg, msg, site = lst[0]
         report_crash(ctx, exc, cfg, msg, usable[k]["src"], len(lst), site)
+    # measured (feature, generator, EVM target) coverage of this run: observations that compiled, deployed and were compared
+    trip = {}
+    for (k, j), (st, o) in out.items():
+        if st == "ok" and usable[k]["name"].startswith("corpus/"):
+            trip.setdefault(usable[k]["name"], set()).add(("venom" if cfgs[j].venom else "legacy", cfgs[j].evm))
+    want_pairs = lambda job: 4 if job["min_evm"] == "cancun" else 10
+    short = {n: sorted(f"{g}-{e}" for g in ("legacy", "venom") for e in EVMS if (g, e) not in ps
+                       and not (e in R.PRE_CANCUN and any(jb["name"] == n and jb["min_evm"] == "cancun" for jb in usable)))
+             for n, ps in trip.items()}
     ctx.corr["corpus"] = {"contracts": [j["name"] for j in usable], "skipped": skipped, "calls_compared": n_cmp,
-                          "successful_calls": ok_calls, "seconds": round(time.time() - t0, 1)}
+                          "successful_calls": ok_calls, "seconds": round(time.time() - t0, 1),
+                          "family_generator_evm_triples": {
+                              "families": sorted({family_of(n) for n in trip}),
+                              "families_in_corpus": sorted({family_of("corpus/" + m) for ms in FAMILY.values() for m in ms}),
+                              "triples_observed": len({(family_of(n), g, e) for n, ps in trip.items() for g, e in ps}),
+                              "triples_possible": 10 * len({family_of(n) for n in trip})},
+                          "feature_generator_evm_triples": {
+                              "features": len(trip), "triples_observed": sum(len(v) for v in trip.values()),
+                              "triples_possible": sum(want_pairs(jb) for jb in usable if jb["name"] in trip),
+                              "missing": {n: m for n, m in short.items() if m},
+                              "rule": "one triple per (corpus contract of this run, code generator, EVM target) with at least one "
+                                      "configuration that compiled, deployed and took part in the comparison"}}
     return n_cmp
+
+
+# ---------------------------------------------------------------------------------------------- N-way: dynamic ABI members
+_DJOBS = None
+
+
+def _dyn_one(args):
+    k, j = args
+    job, cfg = _DJOBS["jobs"][k], _DJOBS["cfgs"][j]
+    try:
+        from vlib import c02_dynret as Y
+        return (k, j, "ok", Y.observe(job["callee"], job["caller"], cfg, job["plan"]))
+    except Exception as e:
+        return (k, j, "exc", (type(e).__name__, str(e)[:300], D.raise_site(e)))
+
+
+def dynret_shapes(ctx, rd):
+    """shapes of round rd -> (rng positioned after the draw, shapes, shapes per program)"""
+    from vlib import c02_dynret as Y
+    rng = ctx.rng(f"dynret:{rd}")
+    shapes = Y.shape_classes(rng, f"r{rd}")
+    if ctx.tier == "quick":
+        # the four classes with >= 2 dynamic members behind one outgoing call always; two of the others per seed
+        rest = shapes[4:]
+        rng.shuffle(rest)
+        shapes = [shapes[0], shapes[1], rest[0], shapes[2], shapes[3], rest[1]]
+    return rng, shapes, (3 if ctx.tier == "quick" else 4)
+
+
+def part_dynret(ctx, cfgs):
+    """values with several dynamically sized members crossing the ABI boundary (interface calls, abi_decode, encode/decode
+    round trips, raw returndata of a mirror callee; well-formed boundary-biased values and damaged encodings), under EVERY
+    (code generator, EVM target) pair: the copy primitives differ per target (MCOPY from cancun, identity precompile
+    before, word loops for small members) and per generator, the decoded value must not"""
+    global _DJOBS
+    from vlib import c02_dynret as Y
+    from vlib.configs import Config, EVMS
+    t0 = time.time()
+    rounds = 1 if ctx.tier == "quick" else 4
+    jobs = []
+    a_callee, a_mirror, _a_caller = Y.addresses()
+    for rd in range(rounds):
+        rng, shapes, per = dynret_shapes(ctx, rd)
+        for k in range(0, len(shapes), per):
+            sh = shapes[k:k + per]
+            callee, caller, table = Y.build_program(sh)
+            plan = Y.make_plan(sh, table, rng, a_callee, a_mirror, 2 if ctx.tier == "quick" else 6)
+            jobs.append({"name": f"dynret/{rd}.{k // per}", "shapes": sh, "callee": callee, "caller": caller, "plan": plan, "table": table})
+    levels = {False: ["none", "gas", "codesize"], True: ["none", "gas", "codesize", "O3"]}
+    dcfgs = [Config(v, lvl, evm) for v in (False, True) for evm in EVMS for lvl in levels[v]]
+    names = [c.name for c in dcfgs]
+    work = []
+    for k, job in enumerate(jobs):
+        rng = ctx.rng("dynret-cfg:" + job["name"])
+        for v in (False, True):
+            for evm in EVMS:
+                lv = levels[v] if ctx.tier != "quick" else [rng.choice(levels[v])]
+                work += [(k, names.index(Config(v, lvl, evm).name)) for lvl in lv]
+    _DJOBS = {"jobs": jobs, "cfgs": dcfgs}
+    out = {}
+    with mp.get_context("fork").Pool(6) as pool:
+        # the callees once per EVM target (reference generator), handed to the workers of the second pool by fork
+        for key, code in pool.imap_unordered(Y.compile_callee, [(job["callee"], evm) for job in jobs for evm in EVMS]):
+            Y._callee_cache[key] = code
+    with mp.get_context("fork").Pool(6) as pool:
+        for k, j, st, o in pool.imap_unordered(_dyn_one, work, chunksize=1):
+            out[(k, j)] = (st, o)
+    n_cmp = ok_calls = halts = 0
+    stats = {}
+    pairs = {}
+    crashes = {}
+    reported = set()
+    for k, job in enumerate(jobs):
+        per = {}
+        for j, cfg in enumerate(dcfgs):
+            if (k, j) not in out:
+                continue
+            st, o = out[(k, j)]
+            if st == "exc":
+                if o[0] not in D.BENIGN_REJECT:
+                    crashes.setdefault(o[0], []).append((k, cfg, o[1], o[2] if len(o) > 2 else ""))
+                continue
+            # a failed call is a failed call: an exceptional halt (e.g. out of gas on a read at an absurd offset of a damaged
+            # encoding) and a REVERT with the same (empty) data differ in the gas consumed only, which is not an observable
+            # of this property; counted, not compared
+            halts += sum(1 for r in o["results"] if not r[0] and r[2])
+            o = {**o, "results": [r if r[0] else (r[0], r[1], ()) for r in o["results"]]}
+            per[cfg.name] = o
+            n_cmp += len(o["results"])
+            for c, r in zip(job["plan"], o["results"]):
+                if c["name"] == "n":
+                    continue
+                i = int("".join(ch for ch in c["name"] if ch.isdigit()))
+                kind = c["name"].rstrip("0123456789") + ("/damaged" if "/mutated" in c["args"] else "")
+                e = stats.setdefault(job["shapes"][i].cls, {}).setdefault(kind, [0, 0])
+                e[0 if r[0] else 1] += 1
+                ok_calls += 1 if r[0] else 0
+                if r[0]:
+                    pairs.setdefault(job["shapes"][i].cls, set()).add(("venom" if cfg.venom else "legacy", cfg.evm))
+        groups = group_observations({n: (per[n]["deployed"], per[n]["results"], per[n]["state"]) for n in sorted(per)})
+        if len(groups) <= 1:
+            continue
+        a, b = groups[0][0], groups[1][0]
+        diff = R.first_difference(per[a], per[b]) or {}
+        call = job["plan"][diff["call"]] if "call" in diff else None
+        cls = "state"
+        calls = job["plan"]
+        if call is not None and call["name"] != "n":
+            i = int("".join(ch for ch in call["name"] if ch.isdigit()))
+            cls = job["shapes"][i].cls + "/" + call["name"].rstrip("0123456789")
+            # minimise: the differing call alone (the contracts keep no state that a decoder reads)
+            try:
+                ra = Y.observe(job["callee"], job["caller"], parse_cfg_name(a), [call])
+                rb = Y.observe(job["callee"], job["caller"], parse_cfg_name(b), [call])
+                if [x[:2] for x in ra["results"]] != [x[:2] for x in rb["results"]]:
+                    calls = [call]
+                    diff = {**diff, "call": 0, "a": ra["results"][0][0], "b": rb["results"][0][0],
+                            "a_out": ra["results"][0][1][:400], "b_out": rb["results"][0][1][:400]}
+            except Exception as e:
+                ctx.log(f"dynret minimisation failed: {type(e).__name__}: {e}")
+        key = f"C02:dynret:{cls}:{split_class2(groups, prefer_era=True)}"
+        if key in reported or len(reported) >= 3:
+            continue
+        reported.add(key)
+        ctx.violation("failing-input", f"configurations disagree on {job['name']} ({cls}): {groups[0][:2]} vs {groups[1][:2]}",
+                      {"family": "dynret", "source": job["caller"], "callee_source": job["callee"],
+                       "mirror_runtime_code": Y.MIRROR_CODE.hex(), "groups": groups, "first_difference": {"a": a, "b": b, **diff},
+                       "calls": [{"function": c["name"], "calldata": c["data"].hex(), "value": c["value"], "sender": c["sender"],
+                                  "args": c.get("args")} for c in calls],
+                       "how": "deploy callee_source (compiled legacy -O gas for the same EVM target), the mirror code, then source "
+                              "(in this order, from the deployer 0x11..11); send the calls to the third contract",
+                       "expected": "the same status, return data and final storage under every configuration (C02)"},
+                      key=key)
+    for exc, lst in crashes.items():
+        k, cfg, msg, site = lst[0]
+        report_crash(ctx, exc, cfg, msg, jobs[k]["caller"], len(lst), site)
+    want = {"legacy", "venom"}
+    ctx.corr["dynret"] = {"programs": len(jobs), "configurations_run": len(work), "calls_compared": n_cmp, "successful_calls": ok_calls,
+                          "per_shape_class": {c: {k2: {"ok": v[0], "revert": v[1]} for k2, v in d.items()} for c, d in stats.items()},
+                          "generator_evm_pairs_with_successful_calls": {c: len(p) for c, p in pairs.items()},
+                          "pairs_possible": 2 * len(EVMS), "failed_calls_ending_in_exceptional_halt_not_revert": halts,
+                          "seconds": round(time.time() - t0, 1)}
+    return n_cmp
+
+
+# ---------------------------------------------------------------------------------------------- returndata flow (Coq)
+RDS_FILES = ["C02/RdsFlow.v", "C02/RdsFlowProofs.v", "C02/GenRdsSkel.v", "C02/PropsC02Rds.v"]
+
+
+def rds_jobs(ctx):
+    """programs whose pre-Cancun legacy IR is abstracted to a returndata-flow skeleton: the whole corpus (+ its helper),
+    the regression list and the callers/callees of the dynamic-member family of this run"""
+    import zlib
+    from vlib import c02_dynret as Y
+    pre = list(R.PRE_CANCUN)
+    lv = ["none", "gas", "codesize"]
+    jobs = []
+    meta = {}
+
+    def add(name, src, helper, levels):
+        for lvl in levels:
+            evm = pre[(zlib.crc32(name.encode()) + ctx.seed) % 3]
+            n = f"{name}@legacy-{lvl}-{evm}"
+            jobs.append((n, src, lvl, evm))
+            meta[n] = (src, helper, lvl, evm)
+    try:
+        from vlib import c02_corpus
+        add("corpus-helper", c02_corpus.HELPER, None, ["gas"])
+        for ent in c02_corpus.CORPUS:
+            if ent.get("min_evm") == "cancun":
+                continue
+            # quick tier: only contracts that can make a call at all (the returndata buffer is read only after one)
+            if ctx.tier == "quick" and not any(w in ent["src"] for w in ("staticcall ", "extcall ", "raw_call(", "create_", "raw_create(", "send(")):
+                continue
+            levels = lv if ctx.tier != "quick" else [lv[(zlib.crc32(ent["name"].encode()) + ctx.seed) % 3]]
+            add("corpus/" + ent["name"], ent["src"], c02_corpus.HELPER, levels)
+    except ImportError:
+        pass
+    if ctx.tier != "quick":
+        for name, src in REGRESS:
+            add(name, src, None, ["gas"])
+    for rd in range(1 if ctx.tier == "quick" else 4):
+        _rng, shapes, per = dynret_shapes(ctx, rd)         # the same programs part_dynret runs
+        for k in range(0, len(shapes), per):
+            callee, caller, _t = Y.build_program(shapes[k:k + per])
+            add(f"dynret/{rd}.{k // per}", caller, None, lv)
+            add(f"dynret-callee/{rd}.{k // per}", callee, None, ["gas"])
+    return jobs, meta
+
+
+def gen_rds(ctx):
+    from vlib import c02_rdsflow as F
+    jobs, meta = rds_jobs(ctx)
+    res = F.skeletons(jobs, 6)
+    named, rejected, stats = [], [], {"rds": 0, "copy": 0, "call": 0, "labels": 0}
+    for n, st, k, stt in res:
+        if st == "ok":
+            named.append((n, k))
+            for a, b in stt.items():
+                stats[a] = stats.get(a, 0) + b
+        elif st == "unknown":
+            rejected.append((n, k))
+        # "compile": the program does not compile under this configuration; part_corpus reports crashes
+    (COQ / "C02" / "GenRdsSkel.v").write_text(F.render_file(named))
+    return named, rejected, stats, meta
+
+
+def part_rdsflow(ctx):
+    """Coq: rds_flow_sound / emitted_skeletons_target_independent over the skeletons regenerated from the emitted IR"""
+    from vlib import c02_rdsflow as F
+    from vlib.configs import Config
+    t0 = time.time()
+    try:
+        named, rejected, stats, meta = gen_rds(ctx)
+    except Exception as e:
+        ctx.violation("translator-rejected", f"cannot extract returndata-flow skeletons: {type(e).__name__}: {e}", {"error": str(e)[:500]})
+        return 0
+    for n, msg in rejected[:2]:
+        ctx.violation("translator-rejected", f"IR node outside the returndata-flow abstraction in {n}: {msg}", {"program": n, "message": msg})
+    unsafe = []
+    for n, k in named:
+        where = []
+        if F.py_chk(k, False, where) is None:
+            unsafe.append((n, where[:1]))
+    b = ctx.coq_build_cached(RDS_FILES)
+    if not b["ok"] and not unsafe and not (b.get("out") or "").strip():
+        # coqc died without a message (seen once on a machine at load 100): not a verdict; run it again
+        ctx.log(f"coqc produced no output on {b.get('file')}; retrying")
+        time.sleep(2)
+        b = ctx.coq_build_cached(RDS_FILES)
+    found = False
+    if unsafe:
+        # Search: the dynamic differential of this run (part_dynret / part_corpus) may already hold the failing input; else
+        # run the offending program under the same legacy level before and after Cancun with a longer call plan
+        prior = [v for v in ctx.violations if v["kind"] == "failing-input" and (v.get("key") or "").startswith(("C02:dynret:", "C02:corpus/"))
+                 and "pre-cancun" in (v.get("key") or "")]
+        found = bool(prior)
+        for n, where in unsafe:
+            if found:
+                break
+            src, helper, lvl, evm = meta[n]
+            if n.startswith("dynret"):
+                continue
+            try:
+                plan, abi = R.make_plan(src, helper, ctx.rng("rds-search:" + n), 80)
+                if plan is None:
+                    continue
+                oa = R.observe_contract(src, Config(False, lvl, evm), plan, helper, abi)
+                ob = R.observe_contract(src, Config(False, lvl, "cancun"), plan, helper, abi)
+                diff = R.first_difference(oa, ob)
+                if diff is not None:
+                    found = True
+                    ctx.violation("failing-input", f"{n}: behaviour differs between {evm} and cancun (legacy -O {lvl})",
+                                  {"source": src, "groups": [[f"legacy-{lvl}-{evm}"], [f"legacy-{lvl}-cancun"]], "first_difference": diff,
+                                   "calls": [{"function": c["name"], "calldata": c["data"].hex(), "value": c["value"], "sender": c["sender"]}
+                                             for c in plan], "helper_deployed_first": helper is not None,
+                                   "returndata_read_after_copy": where},
+                                  key=f"C02:{n.split('@')[0]}:legacy:pre-cancun")
+            except Exception as e:
+                ctx.log(f"rds search failed on {n}: {type(e).__name__}: {e}")
+        if not found:
+            n, where = unsafe[0]
+            ctx.violation("theorem-broken", "emitted_skeletons_target_independent (C02/PropsC02Rds.v): the emitted pre-Cancun IR reads the "
+                          "returndata buffer after a copy through the identity precompile",
+                          {"theorem": "emitted_skeletons_target_independent", "file": "C02/PropsC02Rds.v", "programs": [u[0] for u in unsafe][:8],
+                           "source_of_the_read": where, "source": meta[n][0],
+                           "coq_output": (b.get("out") or "")[-800:] if not b["ok"] else ""})
+    if b["ok"] and unsafe:
+        ctx.violation("correspondence-broken", "python mirror of the returndata-flow analysis rejects a skeleton the Coq run accepts",
+                      {"coq_ok": True, "python_unsafe": [u[0] for u in unsafe][:5]})
+    elif not b["ok"] and not unsafe:
+        ctx.violation("theorem-broken", f"{b.get('failed_lemma')} in {b['file']}",
+                      {"theorem": b.get("failed_lemma"), "file": b["file"], "coq_output": b["out"][-1500:]})
+    ctx.corr["rdsflow"] = {"skeletons": len(named), "rejected": len(rejected), "ir_nodes": stats,
+                           "skeletons_with_copy_and_read": sum(1 for _n, k in named if F.count(k, "copy") and F.count(k, "rds")),
+                           "unsafe": [u[0] for u in unsafe], "dynamic_failing_input_this_run": found if unsafe else None,
+                           "seconds": round(time.time() - t0, 1)}
+    return len(named)
+
+
+def parse_cfg_name(name):
+    from vlib.c01_replay import parse_cfg
+    return parse_cfg(name)
+
+
+def replay_dynret(ctx):
+    """replay of a dynret record against the real compiler: recompile callee and caller under the first configuration of the
+    two recorded groups, deploy callee / mirror / caller, re-send the recorded calldata"""
+    import json
+    if not ctx.replay:
+        return False
+    try:
+        rec = json.load(open(ctx.replay))
+    except Exception:
+        return False
+    d = rec.get("detail", {})
+    if d.get("family") != "dynret":
+        return False
+    import atexit
+    from vlib.common import EVIDENCE
+    from vlib import c02_dynret as Y
+    ev = EVIDENCE / f"{ctx.pid}.json"
+    if ev.exists():
+        old = ev.read_bytes()
+        atexit.register(lambda: ev.write_bytes(old))
+    print(f"[replay] {rec.get('kind')} {rec.get('key')}: {rec.get('name')}")
+    plan = [{"name": c["function"], "data": bytes.fromhex(c["calldata"]), "value": c["value"], "sender": c["sender"]} for c in d["calls"]]
+    obs = {}
+    for g in d["groups"][:2]:
+        n = g[0]
+        try:
+            obs[n] = Y.observe(d["callee_source"], d["source"], parse_cfg_name(n), plan)
+            for c, r in list(zip(plan, obs[n]["results"]))[:6]:
+                print(f"[replay] {n}: {c['name']} -> {'ok' if r[0] else 'REVERT'} {r[1][:160]}")
+        except Exception as e:
+            print(f"[replay] {n}: {type(e).__name__}: {str(e)[:300]}")
+    vals = [([r if r[0] else (r[0], r[1]) for r in o["results"]], o["state"]) for o in obs.values()]
+    if len(vals) == 2 and vals[0] != vals[1]:
+        print("[replay] the two configurations STILL DISAGREE")
+        ctx.violation("failing-input", rec.get("name"), d, key=rec.get("key"))
+    else:
+        print("[replay] the two configurations agree now")
+    return True
 
 
 def run(ctx):
     from vlib.c01_replay import replay
+    if replay_dynret(ctx):
+        return
     if replay(ctx):
         return
     cfgs = configs(ctx.tier)
@@ -725,6 +1164,11 @@ def run(ctx):
     n2 = part_generated(ctx, cfgs)
     n3 = part_corpus(ctx, cfgs)
     n3 += part_matrix(ctx, cfgs)
+    try:
+        n3 += part_dynret(ctx, cfgs)
+    except Exception as e:
+        ctx.violation("gate", f"dynamic-member family did not run: {type(e).__name__}: {e}", {"error": str(e)[:500]})
+    n1 += part_rdsflow(ctx)
     ctx.corr["configs"] = [c.name for c in cfgs]
     ctx.corr["evaluations"] = n1 + n2 + n3
     ctx.corr["distinct_nontrivial"] = n1 + n2 + n3
@@ -742,3 +1186,8 @@ def prebuild(ctx):
     data = PO.extract()
     (COQ / "C02" / "GenPassOrder.v").write_text(PO.render(data))
     ctx.coq_build_cached(["C02/PassOrder.v", "C02/PassOrderProofs.v", "C02/GenPassOrder.v", "C02/PropsC02.v"])
+    try:
+        gen_rds(ctx)
+        ctx.coq_build_cached(RDS_FILES)
+    except Exception as e:
+        ctx.log(f"prebuild of the returndata-flow part failed: {type(e).__name__}: {e}")
